@@ -4,7 +4,8 @@
 (* from the REAL geometry code against the flat byte-array oracle of       *)
 (* Geometry.tla.  One line = one layout with everything the real code      *)
 (* computed for it (sections, piece lengths, block lists, disk contents    *)
-(* after Write, read-backs, web-seed jobs) or one create->parse->allocate  *)
+(* after Write, read-backs, web-seed jobs, the verifier's bitfield before  *)
+(* and after the writes, storage names opened twice) or one create->parse->allocate *)
 (* ->verify round trip on a real directory tree.  Lines are independent;   *)
 (* each line is judged by the per-line predicate LineViols.                *)
 (*                                                                         *)
@@ -27,7 +28,9 @@ tvars == <<vars, l, viol>>
 Trace == ndJsonDeserialize("trace.ndjson")
 Ev == Trace[l]
 
-LayOf(e) == Prep([files |-> e.files, pl |-> e.pl, unit |-> e.unit])
+\* "zero" (the chunks whose content is zero bytes) is optional in a line
+ZeroOf(e) == IF "zero" \in DOMAIN e THEN {e.zero[j] : j \in 1 .. Len(e.zero)} ELSE {}
+LayOf(e) == Prep([files |-> e.files, pl |-> e.pl, unit |-> e.unit, zero |-> ZeroOf(e)])
 Dummy == Prep([files |-> <<<<1, 0>>>>, pl |-> 1, unit |-> 1])
 
 T(c, tag, i, x) == IF c THEN {} ELSE {<<tag, i, x>>}
@@ -96,6 +99,16 @@ LayoutViols(e) ==
             \cup T(e.rerr = 0, "C02.read.err", 0, e.rerr)
             \cup UNION {T(e.disk[f] = IF e.mode = "byte" THEN FinalDisk(L)[f] ELSE FinalDiskRLE(L, f), "C02.write.disk", 0, f)
                           : f \in 1 .. NF(L)}
+            \* @obligation C02.verify  (lines that carry the verifier's bitfields: vb0 over freshly allocated storage, vb1 after
+            \* every piece was written).  Only the direction the property states is judged: content on disk = content of the
+            \* piece => reported present.
+            \cup (IF "vb1" \notin DOMAIN e THEN {}
+                  ELSE IF Len(e.vb0) # np \/ Len(e.vb1) # np THEN {<<"C02.verify.count", 0, Len(e.vb1)>>}
+                  ELSE UNION {T(e.vb1[i + 1] = 1, "C02.verify", i, 1)
+                                \cup T(AllZeroPiece(L, i) => e.vb0[i + 1] = 1, "C02.verify.zero", i, 0) : i \in Pieces(L)})
+            \* @obligation C02.alias  distinct files of the torrent are distinct files on disk (the storage image of "the pieces
+            \* cover the concatenation once and only once": no two flat positions share one (path, offset))
+            \cup (IF "alias" \notin DOMAIN e THEN {} ELSE T(e.alias = 0, "C02.alias", 0, e.alias))
             \* @obligation C02.jobs.*
             \cup UNION {TagSet(JobsViol(L, e.jobs[j][1], e.jobs[j][2], e.jobs[j][3]), e.jobs[j][1], e.jobs[j][2])
                           : j \in 1 .. Len(e.jobs)}
